@@ -87,6 +87,8 @@ def parse_model(txt):
 class E1:
     def __init__(self, pid, tier, seed, cap, symlift, tag="e1", max_m_bits=26, twin_every=1, cross_every=16, taint=False):
         self.taint = taint
+        self.lenient = None       # predicate(spec) -> True when an undecided obligation is outside the must-decide set
+        self.outside_extra = []
         self.pid, self.tier, self.seed, self.cap = pid, tier, int(seed), cap
         self.symlift = symlift
         self.wd = os.path.join(C.WORK, f"{pid}-{tier}-{tag}")
@@ -312,6 +314,14 @@ class E1:
             self._inc(f"{spec}/{q['name']}: taint model does not reproduce natively ({rep})")
 
     def _inc(self, msg):
+        # thorough tier: an obligation beyond the must-decide set that merely ran out of solver time is
+        # reported as attempted-but-outside-the-bound, it does not make the run inconclusive
+        if self.lenient is not None and "undecided (general unknown" in msg or (self.lenient is not None and "undecided (general timeout" in msg):
+            spec = msg.split("/", 1)[0]
+            if self.lenient(spec):
+                with self.lock:
+                    self.outside_extra.append("attempted, undecided within the cap: " + spec)
+                return
         with self.lock:
             self.inconclusive.append(msg)
 
